@@ -113,3 +113,53 @@ func VerifC03Slot() {
 		}
 	}
 }
+
+// VerifC12Straggler (C12, slot level, two threads): breaker A is open and due, breaker B open and not
+// due. One goroutine sends a request (A starts a probe, B blocks it, the blocked entry exits and A's
+// rollback hook runs); another completes a straggler successfully on A. The transitions reported for
+// A must chain (each starts where the previous one ended) from Open to A's final state, whatever the
+// interleaving, and a breaker the straggler closed is not re-opened by the blocked probe's exit.
+func VerifC12Straggler() {
+	now := uint64(2000000000000)
+	rt.SetClockMs(now)
+	sc := base.NewSlotChain()
+	sc.AddStatPrepareSlot(stat.DefaultResourceNodePrepareSlot)
+	sc.AddRuleCheckSlot(circuitbreaker.DefaultSlot)
+	sc.AddStatSlot(circuitbreaker.DefaultMetricStatSlot)
+	mk := func(thr float64, retry uint32) *circuitbreaker.Rule {
+		return &circuitbreaker.Rule{Resource: "R", Strategy: circuitbreaker.ErrorCount, RetryTimeoutMs: retry, MinRequestAmount: 0, StatIntervalMs: 1000, Threshold: thr}
+	}
+	if _, err := circuitbreaker.LoadRules([]*circuitbreaker.Rule{mk(1, 1000), mk(2, 5000)}); err != nil {
+		rt.Assert(false, "LoadRules failed")
+		return
+	}
+	cbs := circuitbreaker.VerifBreakers("R")
+	if len(cbs) != 2 {
+		rt.Assert(false, "two breakers")
+		return
+	}
+	lis := &verifCbListener{}
+	circuitbreaker.ClearStateChangeListeners()
+	circuitbreaker.RegisterStateChangeListeners(lis)
+	circuitbreaker.VerifForceOpen(cbs[0], now-uint64(rt.U32n("overdue", 8)))
+	circuitbreaker.VerifForceOpen(cbs[1], now+1+uint64(rt.U32n("due", 8)))
+	// warm the pools and the statistic node so that the request path below is the steady-state one
+	stat.GetOrCreateResourceNode("R", base.ResTypeCommon)
+	var blk *base.BlockError
+	rt.Spawn(func() {
+		_, blk = Entry("R", WithSlotChain(sc))
+	})
+	rt.Spawn(func() {
+		cbs[0].OnRequestComplete(0, nil) // a request admitted before the trip completes successfully now
+	})
+	rt.Join()
+	rt.Reach("c12.straggler")
+	rt.Assert(blk != nil, "the request is rejected (breaker B is open and not due)")
+	prev := int(circuitbreaker.Open)
+	for _, t := range lis.log { // only breaker A can report: B stays open
+		rt.Assert(t/10 == prev, "every reported transition starts in the state the previous one ended in")
+		prev = t % 10
+	}
+	rt.Assert(int(cbs[0].CurrentState()) == prev, "the reported transitions end in the breaker's state")
+	rt.Assert(cbs[1].CurrentState() == circuitbreaker.Open, "the breaker that blocked stays open")
+}
